@@ -326,3 +326,10 @@ func AdvanceNow(d time.Duration) {
 		time.Sleep(d)
 	}
 }
+
+// BlockedSenders: number of goroutines blocked in a channel send (known only to the symbolic scheduler
+// model; natively 0).
+func BlockedSenders() int { return 0 }
+
+// CtxFired reports whether the context has been cancelled / has expired.
+func CtxFired(ctx interface{ Err() error }) bool { return ctx.Err() != nil }
